@@ -91,7 +91,7 @@ def load(model, prefix="vgen", extra_header=""):
     mod.__file__ = f"<generated {modname}>"
     sys.modules[modname] = mod
     try:
-        exec(compile(src, mod.__file__, "exec"), mod.__dict__)
+        exec(compile(src, mod.__file__, "exec", dont_inherit=True), mod.__dict__)  # do not inherit this file's __future__ flags
     except Exception:
         sys.modules.pop(modname, None)
         raise
